@@ -595,6 +595,37 @@ def j7_positional_settings(ctx) -> None:
                 ctx.violation("J7", c, f"{fi.qualname}: `{norm(c)[:90]}` passes " + ", ".join(f"`{nm}` as parameter `{pnames[i]}`" for i, nm in wrong)
                               + f" of {target.qualname} (declared order: {', '.join(pnames)}): the settings are exchanged, and a round trip through the keyword-based "
                               "loader puts them back, so the reloaded object differs")
+    # the same for method calls that resolve by name to one signature in the package: an
+    # argument named like an optional parameter of the callee, which the call leaves at its
+    # default, is passed under another parameter (set_empty(label, empty) after the signature
+    # grew a parameter in between)
+    byname: Dict[str, List] = {}
+    for cls in P.classes.values():
+        for m in cls.methods.values():
+            byname.setdefault(m.name, []).append(m)
+    nm_calls = 0
+    for fi in P.all_functions():
+        for c in walk_local(fi.node):
+            if not (isinstance(c, ast.Call) and isinstance(c.func, ast.Attribute)) or any(isinstance(a, ast.Starred) for a in c.args):
+                continue
+            ms = byname.get(c.func.attr)
+            if not ms or c.func.attr.startswith("__"):
+                continue
+            sigs = {tuple(m.params() if m.is_static() else m.params()[1:]) for m in ms}
+            if len(sigs) != 1:
+                continue
+            pn = list(next(iter(sigs)))
+            nm_calls += 1
+            given = set(pn[:len(c.args)]) | {k.arg for k in c.keywords if k.arg}
+            if any(k.arg is None for k in c.keywords):
+                continue
+            for i, a in enumerate(c.args):
+                if isinstance(a, ast.Name) and a.id in pn and i < len(pn) and pn.index(a.id) != i and a.id not in given \
+                        and all(_param_default(m.node, a.id) is not None for m in ms):
+                    ctx.violation("J7", c, f"{fi.qualname}: `{norm(c)[:90]}` passes `{a.id}` as parameter `{pn[i]}` of {ms[0].qualname} (declared order: {', '.join(pn)}) "
+                                  f"and leaves the parameter `{a.id}` at its default: the value arrives under another name")
+    if nm_calls < 50:
+        ctx.floor("J7", 99)
     if n < 10:
         ctx.floor("J7", 99)
     else:
